@@ -112,6 +112,7 @@ type Session struct {
 
 	ready          chan struct{} // indicate the session is ready to use
 	closeRequested atomic.Bool   // the session is being closed or has been closed
+	closeReqSent   atomic.Bool   // the close session request has been written to the underlay
 	closedChan     chan struct{} // indicate the session is closed
 	readDeadline   atomic.Int64  // read deadline, in microseconds since Unix epoch
 	writeDeadline  atomic.Int64  // write deadline, in microseconds since Unix epoch
@@ -1252,6 +1253,9 @@ func (s *Session) output(seg *segment, remoteAddr net.Addr) error {
 		seq, _ := seg.Seq()
 		s.lastSend.Store(seq)
 	}
+	if seg.Protocol() == closeSessionRequest {
+		s.closeReqSent.Store(true)
+	}
 	s.lastTXTime.Store(time.Now().UnixMicro())
 	return nil
 }
@@ -1295,7 +1299,9 @@ func (s *Session) closeWithError(err error) error {
 				s.oLock.Unlock()
 				for i := 0; i < 1000; i++ {
 					time.Sleep(time.Millisecond)
-					if s.lastSend.Load() >= closeRequestSeq {
+					// Don't rely on lastSend alone: a session that has not sent
+					// anything yet has lastSend == closeRequestSeq == 0.
+					if s.closeReqSent.Load() && s.lastSend.Load() >= closeRequestSeq {
 						gracefulCloseSuccess = true
 						break
 					}
